@@ -49,10 +49,44 @@ T7 == Tex(NmA, 8, 8, RGBA4, 7)
 T8 == Tex(NmC, 8, 8, LA8, 8)
 T9 == Tex(NmD, 16, 16, A8, 9)
 
-Lists3DS ==
-  IF Quick THEN << <<>>, <<T1>>, <<T2, T3, T4>>, <<T9, T6, T7, T5, T1, T8>> >>
-  ELSE << <<>>, <<T1>>, <<T5, T6>>, <<T2, T3, T4>>, <<T7, T8, T9, T1>>, <<T6, T5, T4, T3, T2>>,
-          <<T9, T2, T7, T5, T1, T8>>, <<T3, T3>> >>
+\* ---- names of a given STORED length (bytes in the container's own encoding: Shift-JIS for
+\* CTPK, UTF-8 for BCH / CGFX).  Path-like ASCII ('/' every 9th byte) with the multi-byte
+\* character U+8868 (95 5C / E8 A1 A8) placed so that it straddles the byte offsets 32, 64, 128,
+\* 256 and, where it fits exactly, ends the name.
+NameBoundaries == {32, 64, 128, 256}
+MbWidth(c) == IF c = "ctpk" THEN 2 ELSE 3
+RECURSIVE NameFrom(_, _, _)
+NameFrom(pos, len, m) ==
+  IF pos >= len THEN <<>>
+  ELSE IF len - pos >= m /\ ((pos + 1) \in NameBoundaries \/ len - pos = m)
+       THEN <<34920>> \o NameFrom(pos + m, len, m)
+       ELSE <<(IF pos % 9 = 8 THEN 47 ELSE 97 + (pos % 26))>> \o NameFrom(pos + 1, len, m)
+LName(c, len) == NameFrom(0, len, MbWidth(c))
+NameLens == {0, 1, 31, 32, 33, 63, 64, 65, 127, 128, 129, 255, 256, 257, 700}
+ASSUME \A c \in {"ctpk", "bch", "cgfx"} : \A len \in NameLens : Len(NameBytes(c, LName(c, len))) = len
+
+\* ---- adversarial lists: the textures of one file share every parameter (format, size, payload
+\* length) and differ in content only, so that anything carried over from one texture to the
+\* next (stale buffer, cached table, wrong index) shows in the pixels
+SameShape(fmt, w, h, names) == [i \in 1..Len(names) |-> Tex(names[i], w, h, fmt, 40 + 3 * i)]
+LenNames(c, lens) == [i \in 1..Len(lens) |-> LName(c, lens[i])]
+ShortNames == << NmA, NmB, NmC, NmD, NmE, NmF >>
+
+Lists3DS(c) ==
+  << <<>>, <<T1>>, <<T2, T3, T4>>, <<T9, T6, T7, T5, T1, T8>>,
+     \* name lengths around 32 / 64 / 128 / 256 stored bytes, same-shape L8 textures
+     SameShape(L8, 8, 8, LenNames(c, <<0, 1, 31, 32, 33, 63>>)),
+     SameShape(L8, 8, 8, LenNames(c, <<64, 65, 127, 128, 129, 255>>)),
+     SameShape(A8, 8, 8, LenNames(c, <<256, 257>>)),
+     SameShape(RGBA8, 8, 8, SubSeq(ShortNames, 1, 3)),
+     SameShape(ETC1A4, 8, 8, SubSeq(ShortNames, 4, 6)) >>
+  \o (IF Quick THEN <<>>
+      ELSE << <<T5, T6>>, <<T7, T8, T9, T1>>, <<T6, T5, T4, T3, T2>>, <<T3, T3>>,
+              SameShape(ETC1, 16, 8, ShortNames), SameShape(RGBA5551, 8, 8, ShortNames),
+              SameShape(RGB565, 8, 16, SubSeq(ShortNames, 1, 4)), SameShape(RGBA4, 8, 8, SubSeq(ShortNames, 2, 5)),
+              SameShape(LA8, 8, 8, SubSeq(ShortNames, 3, 6)),
+              \* one long path-like name
+              SameShape(L8, 8, 8, << LName(c, 700), NmA >>) >>)
 
 P1 == PalTex(5, 3, 4, 11)
 P2 == PalTex(8, 4, 16, 12)
@@ -60,10 +94,22 @@ P3 == PalTex(9, 5, 3, 13)
 P4 == PalTex(1, 1, 1, 14)
 P5 == PalTex(17, 2, 256, 15)
 P6 == PalTex(16, 8, 40, 16)
+\* palette image with separately seeded indices and palette
+PalTex2(w, h, n, si, sp) ==
+  [name |-> <<>>, w |-> w, h |-> h, fmt |-> CI8,
+   payload |-> [k \in 1..CI8PayloadSize(w, h) |-> PatByte(si, k) % n],
+   pal |-> [k \in 1..(2 * n) |-> PatByte(sp, k + 300)]]
 ListsTpl ==
-  IF Quick THEN << <<>>, <<P1>>, <<P2, P3, P4>>, <<P1, P2, P3, P4, P6, P3>> >>
-  ELSE << <<>>, <<P1>>, <<P4, P6>>, <<P2, P3, P4>>, <<P5, P1, P3, P2>>, <<P6, P4, P3, P2, P1>>,
-          <<P1, P2, P3, P4, P6, P3>>, <<P4, P4>> >>
+  << <<>>, <<P1>>, <<P2, P3, P4>>, <<P1, P2, P3, P4, P6, P3>>,
+     \* same shape and palette LENGTH throughout: same indices / other palette, same palette /
+     \* other indices, both different
+     << PalTex2(8, 4, 16, 21, 31), PalTex2(8, 4, 16, 21, 32), PalTex2(8, 4, 16, 22, 32), PalTex2(8, 4, 16, 23, 33) >>,
+     [i \in 1..6 |-> PalTex2(5, 3, 256, 50 + i, 70 + i)] >>
+  \o (IF Quick THEN <<>>
+      ELSE << <<P4, P6>>, <<P5, P1, P3, P2>>, <<P6, P4, P3, P2, P1>>, <<P4, P4>>,
+              [i \in 1..6 |-> PalTex2(9, 5, 3, 80, 90 + i)], [i \in 1..5 |-> PalTex2(1, 1, 1, 5, 100 + 7 * i)],
+              \* palette lengths alternate: a stale palette of the right length two images back
+              << PalTex2(8, 4, 16, 24, 34), PalTex2(8, 4, 40, 25, 35), PalTex2(8, 4, 16, 26, 36), PalTex2(8, 4, 40, 27, 37) >> >>)
 
 \* ------------------------------------------------------------------ placements
 CtpkP(nf, rev, gap, lead, fill) == [namesFirst |-> nf, rev |-> rev, gap |-> gap, lead |-> lead, fill |-> fill]
@@ -95,7 +141,7 @@ Placements(c) ==
          IF Quick THEN << TplCanonP, TplP(2, TRUE, 5, 204), TplP(3, FALSE, 3, 255) >>
          ELSE SetToSeq({ TplP(ord, rev, g[1], g[2]) : ord \in 1..3, rev \in BOOLEAN,
                          g \in { <<0, 0>>, <<5, 204>>, <<32, 170>> } })
-Lists(c) == IF c = "tpl" THEN ListsTpl ELSE Lists3DS
+Lists(c) == IF c = "tpl" THEN ListsTpl ELSE Lists3DS(c)
 
 Cases == UNION { { <<c, vi, pi>> : vi \in 1..Len(Lists(c)), pi \in 1..Len(Placements(c)) } : c \in Containers }
 CaseSeq == SetToSeq(Cases)
